@@ -1,5 +1,5 @@
 (* C04 — every message the library builds serializes to a well-formed UBX frame. *)
-From PyUbx Require Import Base Bytes Frame Types Walk Tables Msg C04_lemmas.
+From PyUbx Require Import Base Bytes Frame Types Walk Consts Tables Msg WfDef C04_lemmas Msg_rt C04_kw.
 Open Scope Z_scope.
 
 (* all three construction routes (no payload, raw payload, keyword attributes — hence also the
@@ -23,6 +23,20 @@ Theorem C04_accepted_partial : forall c i mode v bf k m,
   exists m', parse mode v bf (serialize m) = Ok m' /\ serialize m' = serialize m.
 Proof. exact c04_accepted_payload. Qed.
 Print Assumptions C04_accepted_partial.
+
+(* PARTIAL, keyword route: a message built from keyword attributes is accepted by parse in the same mode, for the
+   definitions the build->parse simulation covers (rt_defb: the decidable side condition of C03_construct_roundtrip,
+   met by more than 300 shipped entries - C03_rt_entries_many), outside the variant selectors and the MGA class.
+   Missing: variant-selected definitions, values that are not representable (scaled / float / text members);
+   covered by correspondence and search. *)
+Theorem C04_accepted_kw_partial : forall c i mode v bf a m ds,
+  (c < 256)%N -> (i < 256)%N -> wf_kwargs (KwAttrs a) -> a <> [] ->
+  variant_lookup mode ([c] ++ [i]) variants = None -> beq [c] [19%N] && negb (beq [i] [128%N]) = false ->
+  construct [c] [i] mode bf (KwAttrs a) = Ok m ->
+  get_dict [c] [i] mode (KwAttrs a) [] = Ok ds -> rt_defb ds = true -> is_cfgval [c] [i] mode = false ->
+  exists m', parse mode v bf (serialize m) = Ok m' /\ serialize m' = serialize m.
+Proof. exact c04_accepted_kw. Qed.
+Print Assumptions C04_accepted_kw_partial.
 
 (* names, integers and bytes address the same message type: for every message id that has a payload
    definition, msgstr2bytes(class name, message name) = msgclass2bytes(c, i) = (c, i).
